@@ -393,6 +393,10 @@ def effTimeout (h : Hist) : Int := if h.swrNs > 0 then h.swrNs else Generated.de
 def monC20 (h : Hist) : Option String :=
   first? [
     if h.leak > 0 then some s!"{h.leak} origin call(s) still pending long after every timeout" else none,
+    -- what the background request received is released when the background work ends: read to its end or closed
+    -- (whatever the upstream keeps alive for an open body — a connection, a goroutine — outlives the request otherwise)
+    (h.bodyLeaks.find? fun p => p.2.1 == "bg").map fun p =>
+      s!"exchange {p.1} (background call {p.2.2}): the origin's response body was neither read to its end nor closed when the background revalidation ended",
     h.reqs.findSome? fun ri => do
       let x ← h.ex ri
       let isSwr := x.res.kind == "resp" && statusValues x.res.hdr == [str% "STALE"] && x.fgCalls.isEmpty
